@@ -12,6 +12,7 @@ import Proofs.UndoAround
 import Proofs.UndoFit
 import Proofs.MarkupSuccess
 import Proofs.HistoryUndo
+import Proofs.MarkHistory
 namespace PM.C04
 open PM
 
@@ -1472,5 +1473,264 @@ theorem history_undo_of_steps (S : Schema) (doc : Node) (sts : List Step) :
   intro tr hall
   obtain ⟨_, _, _, _, hrep⟩ := history_inv S doc sts
   exact history_undo_of_replay S doc tr.steps tr.docs tr.doc hrep hall
+
+/-! ### Range mark steps: `AddMarkStep` / `RemoveMarkStep` (work package `wk-histundo`)
+
+`RemoveMarkStep.invert` is `AddMarkStep` with the same range and mark and vice versa, whatever the
+document.  That naive inverse does not undo every step (a `RemoveMarkStep` over a node that never
+carried the mark is undone by *adding* the mark; an `AddMarkStep` that displaces a mark loses it …).
+The exact condition, token by token, are the guards `removeMarkUndoable` / `addMarkUndoable` of
+PM/MarkUndoGuard.lean (tied to the real code: guard = "the real inverse restores", request
+`markUndoGuards`):
+
+* remove, then add: an inline *atom* starting in `[f, t)` whose parent allows the mark type must
+  satisfy `m.addToSet (m.removeFromSet marks) = marks` — it carried `m`, `m` sits where `add_to_set`
+  puts it, and nothing kept excludes or is excluded by `m`; any other inline node starting in the range
+  (an inline node with content, or one whose parent does not allow the mark type) must not carry `m`,
+  because the add step will not give it back;
+* add, then remove: an inline atom whose parent allows the type must satisfy
+  `m.removeFromSet (m.addToSet marks) = marks` — it did not carry `m` and `m` displaced nothing (a mark
+  that *blocks* `m` is harmless: then neither step does anything); any other inline node must not
+  carry `m`, because the remove step strips it.
+
+`Transform.add_mark` / `remove_mark` emit only steps that satisfy their guard
+(`planRemoveMark_steps_exact`, `planAddMark_steps_exact`), with two exceptions that are carried as
+explicit guards: an inline node *with content* in the range (`flatInline`; no bundled schema has
+one), and — finding `C04-same-type-mark-order` — an inline node carrying two marks of the removed
+mark's type (`sameTypeFree`, `markStep_undo_needs_guard`). -/
+
+/-- **exact undo of a `RemoveMarkStep`**: valid normal-form document, `TextLoop` schema, the step
+    applies, guard `removeMarkUndoable`; `ha`: the two ends do not split a surrogate pair of `doc'`.
+    Then the inverse (`AddMarkStep(f, t, m)`) applies to `doc'` and gives back `doc`. -/
+theorem removeMarkStep_undo (S : Schema) (hts : TextLoop S) (doc doc' : Node) (f t : Nat) (m : Mark)
+    (hd : S.checkNode doc = true) (hn : fnorm doc.kids = true)
+    (h1 : S.apply (.removeMark f t m) doc = .ok doc')
+    (hg : removeMarkUndoable S doc f t m = true)
+    (ha : alignedAt doc'.kids f = true ∧ alignedAt doc'.kids t = true) :
+    S.invert (.removeMark f t m) doc = .ok (.addMark f t m) ∧ S.apply (.addMark f t m) doc' = .ok doc := by
+  obtain ⟨inv, hi, h2⟩ := removeMark_stepUndoes S hts doc doc' f t m hd hn h1 hg ha
+  simp only [Schema.invert, Except.ok.injEq] at hi
+  subst hi
+  exact ⟨rfl, h2⟩
+
+/-- the guard is exact: whenever the inverse applies, it restores the document iff the guard holds -/
+theorem removeMarkStep_undo_iff (S : Schema) (doc doc' doc'' : Node) (f t : Nat) (m : Mark)
+    (hn : fnorm doc.kids = true)
+    (h1 : S.apply (.removeMark f t m) doc = .ok doc') (h2 : S.apply (.addMark f t m) doc' = .ok doc'') :
+    doc'' = doc ↔ removeMarkUndoable S doc f t m = true :=
+  removeMark_restore_iff S doc doc' doc'' f t m hn h1 h2
+
+/-- **exact undo of an `AddMarkStep`** -/
+theorem addMarkStep_undo (S : Schema) (hts : TextLoop S) (doc doc' : Node) (f t : Nat) (m : Mark)
+    (hd : S.checkNode doc = true) (hn : fnorm doc.kids = true)
+    (h1 : S.apply (.addMark f t m) doc = .ok doc')
+    (hg : addMarkUndoable S doc f t m = true)
+    (ha : alignedAt doc'.kids f = true ∧ alignedAt doc'.kids t = true) :
+    S.invert (.addMark f t m) doc = .ok (.removeMark f t m) ∧ S.apply (.removeMark f t m) doc' = .ok doc := by
+  obtain ⟨inv, hi, h2⟩ := addMark_stepUndoes S hts doc doc' f t m hd hn h1 hg ha
+  simp only [Schema.invert, Except.ok.injEq] at hi
+  subst hi
+  exact ⟨rfl, h2⟩
+
+theorem addMarkStep_undo_iff (S : Schema) (doc doc' doc'' : Node) (f t : Nat) (m : Mark)
+    (hn : fnorm doc.kids = true)
+    (h1 : S.apply (.addMark f t m) doc = .ok doc') (h2 : S.apply (.removeMark f t m) doc' = .ok doc'') :
+    doc'' = doc ↔ addMarkUndoable S doc f t m = true :=
+  addMark_restore_iff S doc doc' doc'' f t m hn h1 h2
+
+/-- the guard of `removeMarkStep_undo` in plain words (sufficient): in a valid document, every inline
+    node starting in `[f, t)` is an atom, carries `m`, and carries no other mark of `m`'s type -/
+theorem removeMarkUndoable_of_carried (S : Schema) (doc : Node) (f t : Nat) (m : Mark)
+    (hv : S.checkNode doc = true)
+    (h : ∀ i, i < (ftoks doc.kids).length → f ≤ i → i < t → isInlineTok S (tokD doc i) = true →
+      isAtomTok S (tokD doc i) = true ∧ m ∈ (tokD doc i).marks ∧
+        ∀ o ∈ (tokD doc i).marks, o.ty = m.ty → o = m) :
+    removeMarkUndoable S doc f t m = true := by
+  rw [removeMarkUndoable_iff]
+  intro i hi h1 h2
+  unfold removeUndoTok
+  rw [tokInline_eq, tokAtom_eq, tokMarks_eq]
+  by_cases hin : isInlineTok S (tokD doc i) = true
+  · obtain ⟨hat, hm, hty⟩ := h i hi h1 h2 hin
+    obtain ⟨hc, hal⟩ := valid_tok S doc hv i hi
+    simp [hin, hat, hal m hm, add_remove_eq S _ m hc hm hty]
+  · simp [hin]
+
+/-- the guard of `addMarkStep_undo` in plain words (sufficient): no inline node starting in `[f, t)`
+    carries `m`, and `m` excludes none of the marks of the atoms it is added to -/
+theorem addMarkUndoable_of_fresh (S : Schema) (doc : Node) (f t : Nat) (m : Mark)
+    (h : ∀ i, i < (ftoks doc.kids).length → f ≤ i → i < t → isInlineTok S (tokD doc i) = true →
+      m ∉ (tokD doc i).marks ∧ ∀ o ∈ (tokD doc i).marks, S.excludes m.ty o.ty = false) :
+    addMarkUndoable S doc f t m = true := by
+  rw [addMarkUndoable_iff]
+  intro i hi h1 h2
+  unfold addUndoTok
+  rw [tokInline_eq, tokAtom_eq, tokMarks_eq]
+  by_cases hin : isInlineTok S (tokD doc i) = true
+  · obtain ⟨hm, hex⟩ := h i hi h1 h2 hin
+    have key : m.removeFromSet (m.addToSet S (tokD doc i).marks) = (tokD doc i).marks := by
+      rw [addToSet_eq]
+      split
+      · exact (removeFromSet_eq_self_iff m _).mpr hm
+      · have hf : (tokD doc i).marks.filter (fun o => !S.excludes m.ty o.ty) = (tokD doc i).marks :=
+          List.filter_eq_self.mpr (fun o ho => by simp [hex o ho])
+        rw [hf]
+        exact filter_ne_insertByRank m _ hm
+    have hm' : m.isInSet (tokD doc i).marks = false := by
+      rw [← Bool.not_eq_true, PM.isInSet_iff]; exact hm
+    simp [hin, key, hm']
+  · simp [hin]
+
+/-- **`Transform.remove_mark` emits only steps whose naive inverse is exact.**  If the operation goes
+    through on a valid document without inline nodes that have content, the history grows by the planned
+    steps paired with the documents they were applied to, and every such pair `(RemoveMarkStep(a, b, x), d)`
+    satisfies: `f ≤ a`, `b ≤ t`, and — unless some inline node starting in `[a, b)` carries two marks of
+    `x`'s type (`sameTypeFree`) — the guard `removeMarkUndoable S d a b x` of `removeMarkStep_undo`. -/
+theorem planRemoveMark_steps_exact (S : Schema) (tr tr' : Tr) (f t : Nat) (sel : MarkSel)
+    (hlen : tr.steps.length = tr.docs.length) (hv : S.checkNode tr.doc = true)
+    (hflat : flatInline S tr.doc = true) (h : tr.removeMark S f t sel = .ok tr') :
+    tr'.hist = tr.hist ++ S.stepsHist (planRemoveMarkSteps S tr.doc f t sel) tr.doc ∧
+    HistAll (fun s d _ => ∃ a b x, s = .removeMark a b x ∧ f ≤ a ∧ b ≤ t ∧
+        (sameTypeFree S d a b x.ty = true → removeMarkUndoable S d a b x = true))
+      (S.stepsHist (planRemoveMarkSteps S tr.doc f t sel) tr.doc) tr'.doc := by
+  simp only [Tr.removeMark, planRemoveMark] at h
+  split at h
+  · rename_i sts hsts
+    split at hsts
+    · simp at hsts
+    · simp only [Except.ok.injEq] at hsts
+      subst hsts
+      obtain ⟨h1, _, h3⟩ := Tr.stepAll_hist S _ tr tr' hlen h
+      refine ⟨h1, histAll_stepsHist S _ _ [] tr.doc tr.doc tr'.doc rfl h3 (fun k hk d d' hd _ => ?_)⟩
+      simp only [List.nil_append] at hd
+      exact planRemoveMark_steps_guard S tr.doc f t sel hv hflat k hk d hd
+  · simp at h
+
+/-- **`Transform.add_mark` emits only steps whose naive inverse is exact**: the recorded steps are
+    first `RemoveMarkStep(a, b, x)` for displaced marks `x` — each satisfying `removeMarkUndoable` for
+    the document it is applied to, under the same-type guard — then `AddMarkStep(a, b, m)`, each
+    satisfying `addMarkUndoable` (after the removals the mark displaces nothing, and it is added only
+    over nodes that did not carry it). -/
+theorem planAddMark_steps_exact (S : Schema) (tr tr' : Tr) (f t : Nat) (m : Mark)
+    (hlen : tr.steps.length = tr.docs.length) (hv : S.checkNode tr.doc = true)
+    (hflat : flatInline S tr.doc = true) (h : tr.addMark S f t m = .ok tr') :
+    tr'.hist = tr.hist ++ S.stepsHist (planAddMarkSteps S tr.doc f t m) tr.doc ∧
+    HistAll (fun s d _ =>
+        (∃ a b x, s = .removeMark a b x ∧ f ≤ a ∧ b ≤ t ∧
+          (sameTypeFree S d a b x.ty = true → removeMarkUndoable S d a b x = true)) ∨
+        (∃ a b, s = .addMark a b m ∧ f ≤ a ∧ b ≤ t ∧ addMarkUndoable S d a b m = true))
+      (S.stepsHist (planAddMarkSteps S tr.doc f t m) tr.doc) tr'.doc := by
+  simp only [Tr.addMark, planAddMark] at h
+  split at h
+  · rename_i sts hsts
+    split at hsts
+    · simp at hsts
+    · simp only [Except.ok.injEq] at hsts
+      subst hsts
+      obtain ⟨h1, _, h3⟩ := Tr.stepAll_hist S _ tr tr' hlen h
+      refine ⟨h1, histAll_stepsHist S _ _ [] tr.doc tr.doc tr'.doc rfl h3 (fun k hk d d' hd _ => ?_)⟩
+      simp only [List.nil_append] at hd
+      exact planAddMark_steps_guard S tr.doc f t m hv hflat k hk d hd
+  · simp at h
+
+/-- **a history of `add_mark` / `remove_mark` operations is undone exactly by its inverted steps in
+    reverse order.**  `S` with `TextLoop`; `doc` valid, in normal form, without inline nodes that have
+    content; `ops` any list of `add_mark(f, t, mark)` / `remove_mark(f, t, mark | type | None)` calls
+    that all went through (`Tr.markOps`).  Two families of hypotheses over the recorded history
+    (`tr'.hist` = recorded steps paired with their recorded documents):
+    `hty` — the guard of finding C04-same-type-mark-order: for every recorded `RemoveMarkStep(a, b, x)`
+    no inline node starting in `[a, b)` of its recorded document carries two marks of `x`'s type
+    (automatic when the mark types exclude themselves: `sameTypeFree_of_selfExcluding`);
+    `hal` — the pair-alignment proviso of every step's inverse (automatic for text without surrogate
+    pairs: `markHistory_undo_bmp`). -/
+theorem markHistory_undo (S : Schema) (hts : TextLoop S) (doc : Node) (ops : List MarkOp) (tr' : Tr)
+    (hd : S.checkNode doc = true) (hn : fnorm doc.kids = true) (hflat : flatInline S doc = true)
+    (h : (Tr.init doc).markOps S ops = .ok tr')
+    (hty : HistAll (fun s d _ => s.sameTypeGuard S d) tr'.hist tr'.doc)
+    (hal : HistAll (fun s _ d' => s.undoAligned d') tr'.hist tr'.doc) :
+    tr'.undo S = .ok doc :=
+  markOps_undo S hts doc ops tr' ⟨hd, hn, hflat⟩ h hty hal
+
+theorem markHistory_undo_bmp (S : Schema) (hts : TextLoop S) (doc : Node) (ops : List MarkOp) (tr' : Tr)
+    (hd : S.checkNode doc = true) (hn : fnorm doc.kids = true) (hflat : flatInline S doc = true)
+    (hb : bmpDoc doc = true)
+    (h : (Tr.init doc).markOps S ops = .ok tr')
+    (hty : HistAll (fun s d _ => s.sameTypeGuard S d) tr'.hist tr'.doc) :
+    tr'.undo S = .ok doc :=
+  markOps_undo_bmp S hts doc ops tr' ⟨hd, hn, hflat⟩ hb h hty
+
+/-! The same-type guard cannot be dropped (finding `C04-same-type-mark-order`).  Schema `doc: para*`,
+    `para: text*` (all marks), one mark type `comment` that does not exclude itself; the text of
+    `doc(p("ab"))` carries `[comment{id:1}, comment{id:2}]` (a valid, canonical set).
+    `RemoveMarkStep(1, 3, comment{id:1})` applies; its inverse `AddMarkStep(1, 3, comment{id:1})` applies
+    too, but `add_to_set` puts the mark *behind* the other mark of its type: the result carries
+    `[comment{id:2}, comment{id:1}]`, which is not the document we started from (`Mark.same_set` is
+    order-sensitive).  Every other hypothesis of `removeMarkStep_undo` / `markHistory_undo` holds. -/
+section NeedsSameType
+private def cxS : Schema :=
+  { nodes := #[
+      { name := "doc", isText := false, isInline := false, isLeaf := false, isAtom := false,
+        inlineContent := false, isolating := false, defining := false, code := false,
+        dfa := #[⟨true, [(1, 0)]⟩], markSet := some [], attrs := [] },
+      { name := "para", isText := false, isInline := false, isLeaf := false, isAtom := false,
+        inlineContent := true, isolating := false, defining := false, code := false,
+        dfa := #[⟨true, [(2, 0)]⟩], markSet := none, attrs := [] },
+      { name := "text", isText := true, isInline := true, isLeaf := true, isAtom := true,
+        inlineContent := false, isolating := false, defining := false, code := false,
+        dfa := #[⟨true, []⟩], markSet := some [], attrs := [] }],
+    marks := #[{ name := "comment", excluded := [], inclusive := true, attrs := [] }], top := 0, textTy := 2 }
+
+private def cxM1 : Mark := ⟨0, [("id", "1")]⟩
+private def cxM2 : Mark := ⟨0, [("id", "2")]⟩
+private def cxKids : List Node := [.elem 1 [] [] [.text [97, 98] [cxM1, cxM2]]]
+
+private theorem cx_loop : TextLoop cxS := by
+  intro t q q1 h
+  match t, q with
+  | 0, 0 => simp [Schema.dfa, Schema.nodeType, cxS, Dfa.matchType, Dfa.edgesOf] at h
+  | 1, 0 =>
+    have : q1 = 0 := by
+      simp [Schema.dfa, Schema.nodeType, cxS, Dfa.matchType, Dfa.edgesOf] at h; omega
+    subst this; exact h
+  | 2, 0 => simp [Schema.dfa, Schema.nodeType, cxS, Dfa.matchType, Dfa.edgesOf] at h
+  | 0, q + 1 => simp [Schema.dfa, Schema.nodeType, cxS, Dfa.matchType, Dfa.edgesOf] at h
+  | 1, q + 1 => simp [Schema.dfa, Schema.nodeType, cxS, Dfa.matchType, Dfa.edgesOf] at h
+  | 2, q + 1 => simp [Schema.dfa, Schema.nodeType, cxS, Dfa.matchType, Dfa.edgesOf] at h
+  | t + 3, q =>
+    have : (cxS.dfa (t + 3)) = #[] := by
+      simp [Schema.dfa, Schema.nodeType, cxS]
+      rfl
+    rw [this] at h
+    simp [Dfa.matchType, Dfa.edgesOf] at h
+
+/-- **the same-type guard is needed**: a valid, normal-form, flat document under a `TextLoop` schema
+    and a `RemoveMarkStep` that applies, whose inverse applies as well (pair-alignment holds) — but
+    `sameTypeFree` fails, `removeMarkUndoable` fails, and the inverse does not give the document back -/
+theorem markStep_undo_needs_guard :
+    ∃ (S : Schema) (doc doc' : Node) (f t : Nat) (m : Mark),
+      TextLoop S ∧ S.checkNode doc = true ∧ fnorm doc.kids = true ∧ flatInline S doc = true ∧
+      S.apply (.removeMark f t m) doc = .ok doc' ∧
+      (alignedAt doc'.kids f = true ∧ alignedAt doc'.kids t = true) ∧
+      sameTypeFree S doc f t m.ty = false ∧ removeMarkUndoable S doc f t m = false ∧
+      ∃ doc'', S.apply (.addMark f t m) doc' = .ok doc'' ∧ doc'' ≠ doc := by
+  have hv : cxS.checkNode (.elem 0 [] [] cxKids) = true := by decide
+  have hn : fnorm cxKids = true := by
+    simp [cxKids, fnorm, fnormKids, Node.norm, chainOk]
+  have hb : bmpDoc (.elem 0 [] [] cxKids) = true := by decide
+  obtain ⟨doc', h1⟩ := PM.removeMark_applies cxS cx_loop 0 [] [] cxKids 1 3 cxM1 hv hn (by omega)
+    (by simp [cxKids]) (alignedAt_of_bmp _ _ hb) (alignedAt_of_bmp _ _ hb)
+  have hal := (bmp_step cxS _ _ doc' (.inl ⟨1, 3, cxM1, rfl⟩) hb h1).2
+  have hg : removeMarkUndoable cxS (.elem 0 [] [] cxKids) 1 3 cxM1 = false := by decide
+  obtain ⟨doc'', h2⟩ := removeMark_inverse_applies cxS cx_loop _ doc' 1 3 cxM1 hv hn h1 hal
+  refine ⟨cxS, _, doc', 1, 3, cxM1, cx_loop, hv, hn, by decide, h1, hal, by decide, hg, doc'', h2, ?_⟩
+  intro e
+  have := (removeMark_restore_iff cxS (.elem 0 [] [] cxKids) doc' doc'' 1 3 cxM1 hn h1 h2).mp e
+  rw [hg] at this
+  cases this
+end NeedsSameType
+
+/-- the hypotheses of `markHistory_undo` on a small instance: the guards are computable -/
+example : flatInline cxS (.elem 0 [] [] cxKids) = true ∧ bmpDoc (.elem 0 [] [] cxKids) = true ∧
+    selfExcluding cxS = false ∧ sameTypeFree cxS (.elem 0 [] [] cxKids) 1 3 0 = false := by decide
 
 end PM.C04
